@@ -1,12 +1,12 @@
 #!/bin/sh
 # usage: try_seeded.sh <seeded-dir> [ID ...]   -- applies <seeded-dir>/patch.diff to /repo, runs the quick tier of the given
 # checks (default: the property named in meta.json) with a scratch NVCHECK_ROOT, reverts /repo, prints DETECTED / MISSED per check.
-D="$1"; shift
+D="$(cd "$1" && pwd)"; shift
 [ -f "$D/patch.diff" ] || { echo "no patch in $D"; exit 2; }
 IDS="$*"
 [ -n "$IDS" ] || IDS=$(python3 -c "import json,sys; print(json.load(open('$D/meta.json'))['property'])")
 git -C /repo diff --quiet || { echo "/repo has uncommitted changes"; exit 2; }
-git -C /repo apply "$D/patch.diff" || { echo "patch does not apply"; exit 2; }
+git -C /repo apply "$D/patch.diff" 2>/dev/null || git -C /repo apply --3way "$D/patch.diff" || { echo "patch does not apply"; exit 2; }
 SCR=/dev/shm/seeded-$$; mkdir -p $SCR/evidence $SCR/replays; cp /verif/known_findings.json $SCR/
 cd /verif/harness
 if cargo build --release -q 2>$SCR/build.log; then
